@@ -702,7 +702,7 @@ func rules() {
 func TestC10History(t *testing.T) {
 	rules()
 	h.RunProp(t, cpl, 0)
-	h.RunProp(t, history, h.N(40000, 400000))
+	h.RunProp(t, history, h.N(40000, 300000))
 	if h.C.Shard == 0 {
 		h.Enumerate(t, cpl, func(yield func(CPLCase) bool) {
 			for _, un := range []string{"num", "usr"} {
